@@ -34,7 +34,8 @@ RULE = (
     "datum again carried by OrderedDict / list subclasses (same errors), then every rejected datum again (same errors as the "
     "first time). Discriminated unions (11 unions of C13's world) x 27 field-state bodies x 0..2 unexpected properties x "
     "every mapped key: the error list equals, in order, the one of the named alternative alone. Unions of alternatives "
-    "of the same JSON class (two objects sharing their keys, two lists, two mappings; both orders). distinct_nontrivial counts distinct "
+    "of the same JSON class (two objects sharing their keys, two lists, two mappings; both orders). A class with two "
+    "validators: every ordered pair of 48 data on one compiled method (validator messages next to structural errors). distinct_nontrivial counts distinct "
     "(ctor-pair shape, options, deviations, number of error entries, set of message kinds) tuples."
 )
 
@@ -423,8 +424,86 @@ def same_class_unions():
         yield f"sameclass_union_rev[{name}]", Uni((b, a))
 
 
+VALIDATOR_SRC = '''
+@dataclass
+class Span:
+    low: int = field(default=0)
+    high: int = field(default=10)
+    label: str = field(default="")
+    @validator
+    def ordered(self):
+        if self.low > self.high:
+            raise ValidationError("low is greater than high")
+    @validator(label)
+    def short(self):
+        if len(self.label) > 3:
+            raise ValidationError("label too long")
+'''
+
+
+def run_validator_world(st):
+    """class validators next to structural errors: for every datum of {low, high, label} x {absent, valid, violating, ill-typed}
+    the error list is the structural errors plus the message of every validator whose fields are all valid and not all
+    defaulted — whatever was deserialized before with the same method (every datum is fed after every other datum)"""
+    import itertools
+
+    from ..realize import PRELUDE, exec_source
+
+    mod = exec_source(PRELUDE + VALIDATOR_SRC)
+    states = {"low": {"absent": None, "valid": 1, "violating": 20, "ill": "x"}, "high": {"absent": None, "valid": 5, "ill": None}, "label": {"absent": None, "valid": "ab", "violating": "abcdef", "ill": 7}}
+    data = []
+    for combo in itertools.product(*[list(v.items()) for v in states.values()]):
+        d = {k: val for k, (sname, val) in zip(states, combo) if sname != "absent"}
+        data.append((dict(zip(states, [c[0] for c in combo])), d))
+
+    def expected(kinds, d):
+        errs = []
+        low, high = d.get("low", 0), d.get("high", 10)
+        ill = {k for k, s_ in kinds.items() if s_ == "ill"}
+        if not ({"low", "high"} & ill) and ({"low", "high"} & set(d)) and low > high:
+            errs.append(((), "low is greater than high"))
+        if kinds["high"] == "ill":
+            errs.append((("high",), "expected type integer, found null"))
+        if "label" not in ill and "label" in d and len(d["label"]) > 3:
+            errs.append((("label",), "label too long"))
+        if kinds["label"] == "ill":
+            errs.append((("label",), "expected type string, found integer"))
+        if kinds["low"] == "ill":
+            errs.append((("low",), "expected type integer, found string"))
+        return sorted(errs, key=repr)
+
+    method = apischema.deserialization_method(mod.Span)
+    for (k1, d1), (k2, d2) in itertools.product(data, data):
+        dc.run_impl(method, dict(d1))
+        kind, out = dc.run_impl(method, dict(d2))
+        got = sorted(dc.impl_errors(out), key=repr) if kind == "err" else []
+        exp = expected(k2, d2)
+        st.case("validator_world", tuple(k2.values()), tuple(k1.values()))
+        if got != exp or kind == "exc":
+            st.violation(
+                {
+                    "label": "validators:Span",
+                    "datum": repr(d2),
+                    "options": ["after " + repr(d1)],
+                    "signature": {"kind": "validator_errors", "lost": len(got) < len(exp), "states": [k2["low"], k2["high"], k2["label"]]},
+                    "what": f"Span <- {d2!r} (after {d1!r} on the same method): errors {got if kind != 'exc' else repr(out)}, expected {exp}"[:500],
+                }
+            )
+            return
+    import sys
+
+    sys.modules.pop(mod.__name__, None)
+
+
 def work(tier, widx, nworkers, st, extra):
     mode = (extra or {}).get("mode", "main")
+    if mode == "main" and widx == (2 % nworkers) and os.environ.get("VERIF_ONLY") in (None, "", "validators"):
+        try:
+            run_validator_world(st)
+        except Exception:
+            import traceback
+
+            st.violation({"signature": {"kind": "harness_error"}, "harness_error": True, "what": "validator world", "traceback": traceback.format_exc()[-2000:]})
     if mode == "main" and widx == (1 % nworkers) and os.environ.get("VERIF_ONLY") in (None, "", "sameclass"):
         for i, (label, spec) in enumerate(same_class_unions()):
             apischema.cache.reset()  # Union[A, B] == Union[B, A] for typing: cache conflation (known finding of C09)
@@ -512,6 +591,13 @@ def main(tier: str, t0: float) -> int:
 def replay(path: str) -> int:
     v = json.load(open(path))
     label = v["label"]
+    if label.startswith("validators:"):
+        st = infra.Stats()
+        run_validator_world(st)
+        for x in st.violations[:3]:
+            print("VIOLATION property=C02 replay=" + path)
+            print(" ", x["what"])
+        return 1 if st.violations else 0
     if label.startswith("disc:"):
         st = infra.Stats()
         run_discriminated(st)
